@@ -189,11 +189,14 @@ class Findings:
     def __init__(self):
         self.by_key = {}
         self.harness = []
+        self.exit_leaks = []
 
-    def add(self, key, witness, report, origin):
+    def add(self, key, witness, report, origin, alone=True):
+        """alone: the witness produced the report when executed by itself; such a witness beats any that did not, then size decides"""
         cur = self.by_key.get(key)
-        if cur is None or len(witness) < len(cur['witness']):
-            self.by_key[key] = dict(witness=witness, report=report, origin=origin, n=(cur['n'] + 1 if cur else 1))
+        better = cur is None or (alone, -len(witness)) > (cur['alone'], -len(cur['witness'])) or (not cur['witness'] and witness)
+        if better:
+            self.by_key[key] = dict(witness=witness, report=report, origin=origin, alone=alone, n=(cur['n'] + 1 if cur else 1))
         else:
             cur['n'] += 1
 
@@ -221,7 +224,7 @@ def replay_lists(ctx, exe, paths, tag, findings, suspects, mode='run', timeout=1
 
     def one(ish):
         i, sh = ish
-        res = dict(out=[], crashes=[], incomplete=None)
+        res = dict(out=[], crashes=[], incomplete=None, exit_leaks=[])
         if not sh:
             return res
         lf = os.path.join(ctx.work, 'list-%s-%d.txt' % (tag, i))
@@ -234,7 +237,9 @@ def replay_lists(ctx, exe, paths, tag, findings, suspects, mode='run', timeout=1
             rc, out, err = ctx.run([exe, mode, lf, str(start)], timeout=timeout, env=e)
             text = out.decode('utf-8', 'replace')
             res['out'].append(text)
-            if rc == 0 and '\nDONE' in '\n' + text:
+            if '\nDONE' in '\n' + text:
+                if rc != 0 and 'LeakSanitizer' in err:      # report at process exit: not attributable to one file here
+                    res['exit_leaks'].append(err)
                 break
             case = ''
             try:
@@ -276,18 +281,23 @@ def replay_lists(ctx, exe, paths, tag, findings, suspects, mode='run', timeout=1
                 continue
             findings.add(key, data, top_of_report(err), 'replay:' + tag)
             ctx.count('sanitizer_reports')
+        for err in r['exit_leaks']:
+            findings.exit_leaks.append(err)
         if r['incomplete']:
             raise core.Inconclusive(r['incomplete'])
     return crashed
 
 
 # ------------------------------------------------------------------ libFuzzer jobs
-def fuzz_job(ctx, exe, j, new_budget, seeds_dir, nseeds, blockfile, watchdog, max_restarts):
+GLOBAL_HITS = {}      # (entry, key) -> reports over all jobs of this run (threads share it)
+
+
+def fuzz_job(ctx, exe, j, new_budget, seeds_dir, nseeds, blockfile, pre_mask, watchdog, max_restarts):
     corp = os.path.join(ctx.work, 'corp-%d' % j)
     art = os.path.join(ctx.work, 'art')
     os.makedirs(corp, exist_ok=True)
     remaining = new_budget
-    res = dict(execs=0, new_execs=0, cov=0, ft=0, restarts=0, crashes=[], stats=[0] * NSTAT, skip_mask=0, note=None, corp=corp, new_units=0)
+    res = dict(execs=0, new_execs=0, cov=0, ft=0, restarts=0, crashes=[], stats=[0] * NSTAT, skip_mask=pre_mask, note=None, corp=corp, new_units=0)
     per_entry_key = {}
     r = 0
     while remaining > 0:
@@ -338,8 +348,12 @@ def fuzz_job(ctx, exe, j, new_budget, seeds_dir, nseeds, blockfile, watchdog, ma
         if data:
             ek = (entry_of(data[0]), key)
             per_entry_key[ek] = per_entry_key.get(ek, 0) + 1
+            GLOBAL_HITS[ek] = GLOBAL_HITS.get(ek, 0) + 1
             if per_entry_key[ek] >= 2:
                 res['skip_mask'] |= 1 << ek[0]
+        for (ge, gk), gn in list(GLOBAL_HITS.items()):      # the same report four times over all jobs: skip that entry point here too
+            if gn >= 4:
+                res['skip_mask'] |= 1 << ge
         r += 1
         res['restarts'] = r
         if r > max_restarts:
@@ -410,6 +424,7 @@ def run(ctx):
                        'libFuzzer -timeout=25 s per input; a time-out counts only if the input alone still runs longer than 60 s']
     findings = Findings()
     suspects = []
+    GLOBAL_HITS.clear()
     t0 = time.time()
 
     # ---- phase A
@@ -431,14 +446,38 @@ def run(ctx):
             pass
     held = {p: os.path.join(ctx.work, 'held-' + os.path.basename(p)) for p in blocked | set(suspects)}
     nseeds = len(os.listdir(seeds_dir))
+    # an entry point whose seeds mostly end in a report cannot be explored past that defect: the libFuzzer jobs skip it
+    # from the start (it stays covered by phase A, and is reported); others are skipped per job after two equal reports
+    tot, bad = {}, {}
+    for p in seeds:
+        e = entry_of(int(os.path.basename(p).split('-')[1], 16)) if '-c-' not in os.path.basename(p) else None
+        if e is not None:
+            tot[e] = tot.get(e, 0) + 1
+            if p in blocked:
+                bad[e] = bad.get(e, 0) + 1
+    pre_mask = 0
+    for e, nb in bad.items():
+        if nb >= 5 and nb >= 0.25 * tot[e]:
+            pre_mask |= 1 << e
+    load_dir = seeds_dir
+    if blocked:
+        # restarts are to be expected: load a coverage-minimised copy of the seed set instead of all of it
+        compact = os.path.join(ctx.work, 'seeds-min')
+        os.makedirs(compact, exist_ok=True)
+        rc, out, err = ctx.run([exe['fuzz'], '-merge=1', '-max_len=%d' % MAXLEN, '-timeout=25', '-rss_limit_mb=4096', '-detect_leaks=0',
+                                '-artifact_prefix=%s/merge-' % ctx.work, compact, seeds_dir], timeout=1500,
+                               env=fuzz_env(ctx, C12_SKIP_ENTRIES=pre_mask, C12_BLOCKLIST=blockfile))
+        if rc == 0 and len(os.listdir(compact)) >= 50:
+            load_dir, nseeds = compact, len(os.listdir(compact))
+            ctx.count('seed_set_minimised_to', nseeds)
     tA = time.time() - t0
 
     # ---- phase B
-    new_budget = (20000 if quick else 2000000)
+    new_budget = (15000 if quick else 400000)
     new_budget = int(os.environ.get('C12_NEW_PER_JOB', new_budget))
     os.makedirs(os.path.join(ctx.work, 'art'), exist_ok=True)
-    jobs = ctx.parallel(list(range(JOBS)), lambda j: fuzz_job(ctx, exe['fuzz'], j, new_budget, seeds_dir, nseeds, blockfile,
-                                                             1500 if quick else 4 * 3600, 10 if quick else 30), JOBS)
+    jobs = ctx.parallel(list(range(JOBS)), lambda j: fuzz_job(ctx, exe['fuzz'], j, new_budget, load_dir, nseeds, blockfile, pre_mask,
+                                                             1500 if quick else 4 * 3600, 16 if quick else 40), JOBS)
     tB = time.time() - t0 - tA
     stats = [0] * NSTAT
     lf = dict(cov=0, ft=0, execs=0, new_execs=0, restarts=0, new_units=0, per_job_cov=[], quarantined=[])
@@ -477,7 +516,7 @@ def run(ctx):
             findings.harness.append('artifact %s: report names no libksi frame\n%s' % (c['artifact'], rep))
             continue
         ctx.count('artifacts_reproduced_alone' if repro else 'artifacts_state_dependent')
-        findings.add(key, c['data'], rep, 'libFuzzer')
+        findings.add(key, c['data'], rep, 'libFuzzer', alone=repro)
         ctx.count('sanitizer_reports')
     for c in crashes:
         if c not in todo and c['key'] and c['key'] in findings.by_key:
@@ -521,7 +560,7 @@ def run(ctx):
         rc, out, err = ctx.run([exe['replay'], 'leak1', p], timeout=600)
         return p, rc, err
     for p, rc, err in ctx.parallel(pick, leak1, JOBS):
-        if 'LeakSanitizer' in err:
+        if 'LeakSanitizer' in err and crash_key(err):
             findings.add(crash_key(err), open(p, 'rb').read(), top_of_report(err, 18), 'allocation accounting + LeakSanitizer')
             ctx.count('leaks_confirmed')
         elif rc == 0:
@@ -530,6 +569,12 @@ def run(ctx):
             k = crash_key(err)
             if k and not k.endswith(':?'):
                 findings.add(k, open(p, 'rb').read(), top_of_report(err), 'leak confirmation run')
+
+    for err in findings.exit_leaks:             # leaks only seen when a replay process exited: keep them if nothing attributed the key
+        k = crash_key(err)
+        ctx.count('lsan_reports_at_replay_exit')
+        if k and not k.endswith(':?') and k not in findings.by_key:
+            findings.add(k, b'', top_of_report(err, 18) + '\n(reported by LeakSanitizer when a replay process exited; no single input identified)', 'replay exit', alone=False)
 
     # ---- probe-failure sequences
     for c in crashes:
@@ -582,7 +627,7 @@ def run(ctx):
             ctx.count('fuzz_' + nme, stats[i])
     ctx.extra['libfuzzer'] = dict(executions=lf['execs'], new_inputs=lf['new_execs'], cov_edges_max=lf['cov'], features_max=lf['ft'],
                                   cov_per_job=lf['per_job_cov'], units_added=lf['new_units'], final_corpus_distinct=len(corpus),
-                                  restarts=lf['restarts'], quarantined=lf['quarantined'], jobs=JOBS, new_inputs_budget_per_job=new_budget,
+                                  restarts=lf['restarts'], quarantined=lf['quarantined'], skipped_from_start=[ENTRY[i] for i in range(len(ENTRY)) if pre_mask >> i & 1], jobs=JOBS, new_inputs_budget_per_job=new_budget,
                                   seeds_loaded=nseeds)
     ctx.extra['fuzz_exec_per_entry'] = per_entry
     ctx.extra['fuzz_parse_ok_per_entry'] = per_entry_ok
